@@ -4,7 +4,7 @@
    with `path`, the BFS path to the current state, used to emit replayable cases).        *)
 EXTENDS SerifHeap, Json
 
-CONSTANTS Acts, Lens, Vals, NameSet, MaxDepth, MaxCols, Emit
+CONSTANTS Acts, Lens, Vals, NameSet, MaxDepth, MaxCols, Emit, ObsV, ObsT
 
 VARIABLES st, last, path
 vars == <<st, last, path>>
@@ -67,9 +67,11 @@ AConcatEmpty == On("ConcatEmpty") /\ DeadObjs(S) # {} /\ \E o \in LiveVec(S) : L
 AWriteRow == On("WriteRow") /\ \E t \in LiveTab(S) : S.tlen[t] > 0 /\ \E r \in 1..S.tlen[t] :
              \E xs \in [1..Len(S.cols[t]) -> Vals], sids \in Seqs(Len(S.cols[t])) :
              Do(WriteRow(S, t, r, xs, sids), Act("WriteRow", t, r, 0, 0, xs, NoName, ""))
+AObserveV == On("Observe") /\ \E o \in LiveVec(S), f \in ObsV : Do(Observe(S, o, f), Act("Observe", o, 0, 0, 0, <<>>, f, ""))
+AObserveT == On("Observe") /\ \E t \in LiveTab(S), g \in ObsT : Do(Observe(S, t, g), Act("Observe", t, 0, 0, 0, <<>>, g, ""))
 ADir == On("Dir") /\ \E t \in LiveTab(S) : Do(Dir(S, t), Act("Dir", t, 0, 0, 0, <<>>, NoName, ""))
 
-Next == AWriteByName \/ ADir \/ AConcatEmpty \/ AWriteRow \/ ANewVec \/ AShareVec \/ ADropTuple \/ ACopy \/ ADrop \/ AWrite \/ AReadFpV \/ ANewTable
+Next == AWriteByName \/ ADir \/ AConcatEmpty \/ AWriteRow \/ AObserveV \/ AObserveT \/ ANewVec \/ AShareVec \/ ADropTuple \/ ACopy \/ ADrop \/ AWrite \/ AReadFpV \/ ANewTable
         \/ ASetAttr \/ AColView \/ ADropTable \/ AReadFpT \/ ARename \/ ARenameColumn \/ ALookup
 Spec == Init /\ [][Next]_vars
 Bound == Len(path) < MaxDepth
@@ -106,7 +108,7 @@ WritesLocal == [][ last'.a \in {"Write", "SetAttr"} =>
                     LET tgt == IF last'.a = "Write" THEN Entity(st, last'.x) ELSE Entity(st, last'.x) IN
                     \A x \in (st.live \cap st'.live) \ tgt : ViewOf(st', x) = ViewOf(st, x) ]_vars
 (* read-only / constructing calls never change an existing object's view *)
-PureOps == [][ last'.a \in {"NewVec", "ShareVec", "Copy", "ConcatEmpty", "ReadFpV", "ReadFpT", "NewTable", "ColView", "Lookup", "Drop", "DropTuple", "DropTable"} =>
+PureOps == [][ last'.a \in {"Observe", "NewVec", "ShareVec", "Copy", "ConcatEmpty", "ReadFpV", "ReadFpT", "NewTable", "ColView", "Lookup", "Drop", "DropTuple", "DropTable"} =>
                     \A x \in st.live \cap st'.live : ViewOf(st', x) = ViewOf(st, x) ]_vars
 (* a refused or failed call changes nothing at all (C01, C08) *)
 FailedChangesNothing == [][ last'.res \in {"Refused", "Err"} => st' = st ]_vars
@@ -121,7 +123,7 @@ WritesLocalStep ==
     last'.a \in {"Write", "SetAttr", "WriteRow"} =>
         \A x \in (st.live \cap st'.live) \ Entity(st, last'.x) : ViewOf(st', x) = ViewOf(st, x)
 PureOpsStep ==
-    last'.a \in {"NewVec", "ShareVec", "Copy", "ConcatEmpty", "ReadFpV", "ReadFpT", "NewTable", "ColView", "Lookup", "Dir", "Drop", "DropTuple", "DropTable"} =>
+    last'.a \in {"Observe", "NewVec", "ShareVec", "Copy", "ConcatEmpty", "ReadFpV", "ReadFpT", "NewTable", "ColView", "Lookup", "Dir", "Drop", "DropTuple", "DropTable"} =>
         \A x \in st.live \cap st'.live : ViewOf(st', x) = ViewOf(st, x)
 FailedStep == last'.res \in {"Refused", "Err"} => st' = st
 WriteChangesFpStep ==
